@@ -21,6 +21,7 @@ LEVEL_TEXT = ("1.5e3 (quick) / 4e4 (thorough) configurations x request sequences
               "with zero weights, all four filter kinds and all three transform kinds; every row label, carried vector, reported value, activity flag and array identity checked")
 LEVEL_NOTE = "trusted: the oracles in this file; aggregates (functions, gradients, weight rows, flags) must be bit-identical under different finite garbage in inactive entries"
 ANCHOR_FILES = ["src/ropt/ensemble_evaluator/_evaluator_results.py", "src/ropt/ensemble_evaluator/_ensemble_evaluator.py", "src/ropt/evaluator/_evaluator.py", "src/ropt/results/_utils.py"]
+EXECUTION_COUNTERS = ["calls_checked"]   # executions of the oracle inside the cases (reported as coverage.evaluations)
 RULE = ("case = configuration + request sequence, executed with two garbage fillings; non-trivial if at least one evaluator call was checked; cases with inactive entries, filters, "
         "transforms, memo hits are counted separately in monitor_counters; distinct key = (case index, personality)")
 ASSUMPTIONS = ["garbage written into inactive entries is finite", "with transforms, user-domain quantities are compared to 1e-12 relative"]
